@@ -1392,30 +1392,66 @@ def value_has_type(body, pl, ty, depth=8):
     return False
 
 
-def parse_bound_table(ctx, rule, b):
-    """Some(b) => parsed ; None & Binary => [0,1] ; None => Bound::default()   (as get_bounds / TryFrom<&DecisionVariable>)"""
-    tests = option_tests(b, DV, 'bound')
-    ctx.check(bool(tests), rule + '/bound-option-test', 'T-BRANCHFX', b.name, 'no case split on self.bound', b.site())
-    if not tests: return
+def message_delegates(ctx, b):
+    """calls that hand the whole message (parameter 1, by value or by reference) to another function of the crate:
+    (call, callee body).  "existing helper / sibling conversion reused": the callee then carries the contract."""
+    out = []
+    for c in b.calls:
+        cb = ctx.F.bodies.get(c.path) or ctx.F.bodies.get(c.name)
+        if cb is None or cb.kind != 'fn' or cb is b: continue
+        for a in c.args:
+            if a['k'] in ('copy', 'move'):
+                fs, root, calls = T.access_path(b, a)
+                if root == 1 and not fs and not calls: out.append((c, cb)); break
+    return out
+
+
+def bound_table_in(ctx, fb):
+    """the unset-bound table read off one body: (score, table, conversions of a set bound, Guard) or None"""
+    tests = option_tests(fb, DV, 'bound')
+    if not tests: return None
     # the typed kind, or the message's kind (the Kind conversion table is checked by C08.parse.required/Kind/table)
-    kind_tests = enum_tests(ctx, b, 'decision_variable::Kind', 'Binary') + enum_tests(ctx, b, 'v1::decision_variable::Kind', 'Binary')
+    kind_tests = enum_tests(ctx, fb, 'decision_variable::Kind', 'Binary') + enum_tests(ctx, fb, 'v1::decision_variable::Kind', 'Binary')
     best = None
     for g in tests:
         sr = g.only(True); nr = g.only(False)
-        conv = [c for c in b.calls if c.bb in sr and c.item in ('parse_as', 'parse') and 'v1::Bound as parse::Parse' in c.name]
+        # a set bound is validated: parsed (Parse for v1::Bound) | Bound::try_from(v1::Bound) | Bound::new(b.lower, b.upper)
+        conv = [c for c in fb.calls if c.bb in sr and ((c.item in ('parse_as', 'parse') and 'v1::Bound as parse::Parse' in c.name)
+                                                        or (c.item == 'try_from' and re.search(r'<bound::Bound as std::convert::TryFrom<&?v1::Bound>>', c.name))
+                                                        or (c.path.endswith('Bound::new') and len(c.args) == 2 and ('v1::Bound', 'lower') in T.access_path(fb, c.args[0])[0] and ('v1::Bound', 'upper') in T.access_path(fb, c.args[1])[0]))]
         tab = {'some': 'parsed' if conv else 'other', 'none-binary': 'other', 'none-other': 'other'}
-        news = [c for c in b.calls if c.bb in nr and c.path.endswith('Bound::new')]
-        defs = [c for c in b.calls if c.bb in nr and c.item == 'default' and 'bound::Bound' in c.name]
+        news = [c for c in fb.calls if c.bb in nr and c.path.endswith('Bound::new')]
+        defs = [c for c in fb.calls if c.bb in nr and c.item == 'default' and 'bound::Bound' in c.name]
         for yes, no in kind_tests:
             v01 = [tuple(T.f64_const(a['v']) if a['k'] == 'const' else None for a in x.args) for x in news if x.bb in yes]
             if v01 == [(0.0, 1.0)] and not any(x.bb in yes for x in defs): tab['none-binary'] = (0.0, 1.0)
             if any(x.bb in no for x in defs) and not any(x.bb in no for x in news): tab['none-other'] = 'Bound::default'
         score = sum(1 for k, v in tab.items() if v != 'other')
         if best is None or score > best[0]: best = (score, tab, conv, g)
+    return best
+
+
+def parse_bound_table(ctx, rule, b):
+    """Some(b) => parsed ; None & Binary => [0,1] ; None => Bound::default()   (as get_bounds / TryFrom<&DecisionVariable>).
+    The table is read in the parser itself, or in a function of the crate to which the parser hands the whole message and whose
+    result becomes the typed `bound` (delegation to a sibling consumer such as TryFrom<&v1::DecisionVariable> for Bound);
+    the delegate's error must propagate."""
+    where = b; best = bound_table_in(ctx, b)
+    if best is None:
+        bops = [agg_field_operand(st, 'bound') for bi, st in find_aggregates(b, 'decision_variable::DecisionVariable')]
+        feeds = set()
+        for op in bops:
+            if op is not None: feeds |= ctx.S.slice_operand(b, op).locals
+        for c, cb in message_delegates(ctx, b):
+            if c.dst['l'] not in feeds or any(k == 'bad' for k, _ in errflow_vp(b, c.dst['l'])): continue
+            cand = bound_table_in(ctx, cb)
+            if cand is not None and (best is None or cand[0] > best[0]): best = cand; where = cb
+    ctx.check(best is not None, rule + '/bound-option-test', 'T-BRANCHFX', b.name, 'no case split on self.bound (in the parser or in a function it hands the message to)', b.site())
+    if best is None: return
     score, tab, conv, g = best
-    errflow_calls(ctx, rule + '/some/error', b, conv, 'bound parse')
-    ctx.check(tab == {'some': 'parsed', 'none-binary': (0.0, 1.0), 'none-other': 'Bound::default'}, rule + '/table', 'T-SIBLING', b.name,
-              'unset-bound table is %s; expected Some=>parsed, None+Binary=>[0,1], None=>Bound::default() as in get_bounds / TryFrom<&DecisionVariable>' % tab, b.site(g.switch_bb), table=str(tab))
+    errflow_calls(ctx, rule + '/some/error', where, conv, 'bound parse')
+    ctx.check(tab == {'some': 'parsed', 'none-binary': (0.0, 1.0), 'none-other': 'Bound::default'}, rule + '/table', 'T-SIBLING', where.name,
+              'unset-bound table is %s; expected Some=>parsed, None+Binary=>[0,1], None=>Bound::default() as in get_bounds / TryFrom<&DecisionVariable>' % tab, where.site(g.switch_bb), table=str(tab))
 
 
 # =============================================================================================
@@ -1752,6 +1788,30 @@ def path_rules(ctx):
             ctx.check(src[0] == field, R + '/field-literal', 'T-CONST', fb.name, 'parse_as(.., "%s") is applied to field `%s`' % (field, src[0]), fb.site(c.bb))
             if message is not None:
                 ctx.check(message == want_msg, R + '/message-literal', 'T-CONST', fb.name, 'message literal "%s" in the %s parser, expected "%s"' % (message, msg_ty, want_msg), fb.site(c.bb))
+    # delegated conversions: a Result-returning function of the crate that receives the whole message and whose value becomes
+    # exactly one typed field: its error is reported under that field (`.map_err(|e| ..context(message, "<field>"))?`)
+    for fb in ctx.F.bodies.values():
+        if fb.kind != 'fn': continue
+        tr = fb.hdr.get('trait') or ''; self_ty = fb.hdr.get('self') or ''; targs = fb.hdr.get('targs') or []
+        msg_ty = self_ty if (tr.endswith('Parse') and self_ty.startswith('v1::')) else (targs[0] if (tr.endswith('TryFrom') and targs and targs[0].startswith('v1::')) else None)
+        if msg_ty is None: continue
+        mfields = set(ctx.F.adt_fields(msg_ty) or [])
+        for c, cb in message_delegates(ctx, fb):
+            if not re.match(r'(std|core)::result::Result<', cb.locals[0].strip()) or (c.trait or '').endswith('Parse'): continue
+            into = set()
+            for bi, st in fb.stmts():
+                if st['rv']['k'] == 'agg' and st['rv'].get('fields'):
+                    for fname, op in zip(st['rv']['fields'], st['rv']['ops']):
+                        if fname in mfields and op['k'] in ('copy', 'move') and c.dst['l'] in ctx.S.slice_operand(fb, op).locals: into.add(fname)
+            if len(into) != 1:
+                ctx.undecided(R + '/field-literal', 'T-CONST', fb.site(c.bb), 'the delegated conversion feeds %d typed fields' % len(into)); continue
+            field = sorted(into)[0]
+            fails = [g.true_bb for l in T.copies_of(fb, c.dst['l'], through_refs=False) for g in variant_guards(fb, l, 1) if g.true_bb is not None]
+            arms = T.try_arms(fb, c.dst['l'])
+            if arms: fails.append(arms[1])
+            okp = bool(fails) and error_path(fb, fails, msg_ty, field)
+            ctx.check(okp, R + '/field-literal', 'T-CONST', fb.name, 'the error of the conversion that yields `%s` is not reported under field `%s`' % (field, field), fb.site(c.bb))
+            ctx.check(okp, R + '/message-literal', 'T-CONST', fb.name, 'the error of the conversion that yields `%s` is not reported under message ommx.%s' % (field, '.'.join(msg_ty.split('::'))), fb.site(c.bb))
     # elements of the hint lists are parsed under the name of their list
     b = ctx.F.one('v1::ConstraintHints', 'parse', trait='Parse')
     if b is not None:
